@@ -309,6 +309,21 @@ Definition rc_monitor (kv : Q) (rc : rcase) : bool :=
                                && obs_contract eps kv rc o)) rest
   end.
 
+(** flag 1 (known finding C09-order-dependent-at-ties): the real results differ
+    between enumeration orders on a resource that the model places at an
+    exact-arithmetic tie / rounding cliff (class 2).  Such a disagreement is not a
+    monitor failure (every differing result must still satisfy the contract); a
+    disagreement on any other case is. *)
+Definition rc_flag (kv : Q) (rc : rcase) : bool :=
+  match rc_class kv rc, rc_obs rc with
+  | 2%nat, o1 :: rest => negb (forallb (agree (rc_eps kv rc) o1) rest)
+  | _, _ => false
+  end.
+Definition flags (k : case) : list nat :=
+  if existsb (rc_flag (k_kvalue k)) (k_res k) then [1%nat] else [].
+Definition run_flags (cs : list (nat * case)) : list (nat * list nat) :=
+  filter (fun p => negb (Nat.eqb (List.length (snd p)) 0)) (map (fun c => (fst c, flags (snd c))) cs).
+
 Definition monitor_ok (k : case) : bool :=
   k_returned k && forallb (rc_monitor (k_kvalue k)) (k_res k).
 
